@@ -75,6 +75,30 @@ def run(ctx):
             bad("objective is not zero at the parameters that generated the data", inp, float(np.abs(zero).max()))
         items.append((tb, days, prod, pf, tau, M, p0))
         outs.append(got)
+    # one process, several wells: identical (tau, p_initial, number of rows) but different frac-face histories and
+    # tables, evaluated one after the other in both orders -- the objective must depend on its arguments only
+    for k in range(3 if ctx.quick else 20):
+        nd = int(rng.integers(6, 14))
+        tau, M, p0 = float(rng.uniform(20, 500)), float(rng.uniform(100, 1e5)), float(rng.uniform(5000, 9000))
+        days = np.arange(nd, dtype=float)
+        hists = [rng.uniform(500, 0.9 * p0, nd), np.sort(rng.uniform(500, 0.9 * p0, nd))[::-1].copy(), np.full(nd, 0.5 * p0)]
+        prod = np.cumsum(rng.uniform(0, 100, nd))
+        pvt2 = pd.DataFrame(rescorr.shipped_gas(stride=20))
+        with warnings.catch_warnings():
+            warnings.simplefilter("ignore")
+            seq = [(h, t_) for h in hists for t_ in (pvt, pvt2)]
+            first = [np.asarray(fpm._obj_function(params(tau, M, p0), days, prod, t_, h), float) for h, t_ in seq]
+            second = [np.asarray(fpm._obj_function(params(tau, M, p0), days, prod, t_, h), float) for h, t_ in reversed(seq)][::-1]
+            for (h, t_), a, b in zip(seq, first, second):
+                fp = FlowProperties(t_, p0)
+                res = SinglePhaseReservoir(80, float(h[0]), p0, fp)
+                res.simulate(days / tau, pressure_fracface=h)
+                want = M * np.asarray(res.recovery_factor(), float) - prod
+                ev += 1
+                if not (np.allclose(a, want, rtol=1e-10, atol=1e-9 * M) and np.allclose(b, want, rtol=1e-10, atol=1e-9 * M)):
+                    bad("the objective depends on earlier evaluations (same tau / p_initial / row count, different pressure history or table): it is not "
+                        "M x the library recovery for ITS pressure history minus production", dict(tau=tau, M=M, p_initial=p0, days=nd, schedule=[float(x) for x in h[:4]]),
+                        dict(first_pass=[float(x) for x in a[:3]], second_pass=[float(x) for x in b[:3]], expected=[float(x) for x in want[:3]]))
     res_m = coq_objective(ctx, items)
     if res_m is not None and len(res_m) == len(outs):
         for it, got, mod in zip(items, outs, res_m):
@@ -86,7 +110,7 @@ def run(ctx):
     # ---------------- fit: limits, filtering, window
     nfit = 3 if ctx.quick else 20
     for k in range(nfit):
-        nd = int(rng.integers(12, 30))
+        nd = int(rng.integers(28, 45))  # the library needs more than 16 kept rows (tau in [30, 2(n-1)])
         gas = rng.uniform(5, 60, nd) * (rng.random(nd) > 0.25)
         pres = rng.uniform(800, 3500, nd)
         pres[rng.choice(nd, 2, replace=False)] = np.nan
